@@ -177,7 +177,7 @@ def describe(v):
     return d
 
 
-def _try_one(ex, c, qual, names, conc, args0, cz, call):
+def _try_one(ex, c, qual, names, conc, args0, cz, call, ob_name=None):
     from . import engine
     import copy as _copy
     import io
@@ -205,7 +205,15 @@ def _try_one(ex, c, qual, names, conc, args0, cz, call):
     except Exception as e:
         info['observed'] = 'exception ' + repr(e)
         info['trace'] = traceback.format_exc()[-800:]
-        info['status'] = 'reproduced'
+        # an exception reproduces a run-time-safety obligation; for any
+        # other clause it says nothing (the concretised objects carry only
+        # the fields the contract speaks about)
+        if ob_name is None or ':safe:' in ob_name:
+            info['status'] = 'reproduced'
+        else:
+            info['status'] = 'not-reproduced'
+            info['why'] = ('the real function raised on the concretised '
+                           'input; the failed clause is not about that')
         return info
     info['observed'] = describe(result)
     # evaluate the contract on the concrete outcome
@@ -278,7 +286,7 @@ def _try_one(ex, c, qual, names, conc, args0, cz, call):
     return info
 
 
-def replay_function(ex, c, qual, model, args0, caller=None):
+def replay_function(ex, c, qual, model, args0, caller=None, ob_name=None):
     """-> dict(status=reproduced|not-reproduced|no-replay, input, observed)"""
     from . import engine
     info = {'status': 'no-replay', 'function': qual}
@@ -306,7 +314,8 @@ def replay_function(ex, c, qual, model, args0, caller=None):
             cands = list(gen(conc)) or [conc]
         last = None
         for cand in cands[:40]:
-            last = _try_one(ex, c, qual, names, cand, args0, cz, call)
+            last = _try_one(ex, c, qual, names, cand, args0, cz, call,
+                            ob_name)
             if last['status'] == 'reproduced':
                 break
         info.update(last)
